@@ -417,7 +417,7 @@ Definition child_update_nf (st : state) (name s pk : Z) : state :=
 
 (* UpdateClientConnState with Priorities = map fst l, Children = l (name -> policy type).
    The two loops over the children maps are written as one map comprehension: names in
-   the config_nf are created or (on a policy-type change) stopped and renamed, all other
+   the config are created or (on a policy-type change) stopped and renamed, all other
    children are stopped and deleted. *)
 Definition config_nf (st : state) (l : list (Z * Z)) : state :=
   let ch := fun m =>
@@ -435,7 +435,7 @@ Definition config_nf (st : state) (l : list (Z * Z)) : state :=
   let st1 := mkst (now st) (closed st) (inuse st) (map fst l) ch (parent st) (out st) in
   match l with
   | [] => emit (set_inuse st1 (-1)) TF (-1)
-  | _ => sync_nf st1 (inuse st1)          (* resumePickerUpdates in run_nf() *)
+  | _ => sync_nf st1 (inuse st1)          (* resumePickerUpdates in run() *)
   end.
 
 (* the AfterFunc callbacks whose deadline is the current instant *)
